@@ -175,8 +175,7 @@ func sfExtra(l gopacket.Layer) []func() {
 				case layers.SFlowExtendedURLRecord:
 					_ = v.Direction.String()
 				case layers.SFlowExtendedUserFlow:
-					_ = v.SourceCharSet.String()
-					_ = v.DestinationCharSet.String()
+					_ = v.GetType().String()
 				case layers.SFlowGenericInterfaceCounters:
 					_ = v.GetType().String()
 				case layers.SFlowEthernetCounters:
